@@ -191,9 +191,17 @@ func runConn(env *script.Env, c Case, cc Conn) (r connResult) {
 		return fail("C12/auth-ok", "expected AuthenticationOk at position %d: %v", i, pgwire.Briefs(msgs))
 	}
 	i++
-	want := map[string]string{"server_encoding": "UTF8", "client_encoding": "UTF8", "is_superuser": "off", "session_authorization": user}
+	// the configured parameters, then the ones the server states itself (they are what the property
+	// says they are, also when the configured map happens to use the same names)
+	want := map[string]string{}
 	for k, v := range c.Params {
 		want[k] = v
+	}
+	for k, v := range map[string]string{"server_encoding": "UTF8", "client_encoding": "UTF8", "session_authorization": user} {
+		want[k] = v
+	}
+	if _, configured := c.Params["is_superuser"]; !configured {
+		want["is_superuser"] = "off"
 	}
 	if c.Version != "" {
 		want["server_version"] = c.Version
@@ -214,8 +222,8 @@ func runConn(env *script.Env, c Case, cc Conn) (r connResult) {
 			}
 		}
 	}
-	if got["is_superuser"] == "on" {
-		want["is_superuser"] = "on" // the property names the parameter, not its value
+	if _, ok := got["is_superuser"]; ok {
+		want["is_superuser"] = got["is_superuser"] // the property names the parameter, not its value
 	}
 	if d := diffMaps(want, got); d != "" {
 		return fail("C12/parameter-status/set", "ParameterStatus set differs: %s", d)
